@@ -73,6 +73,21 @@ func runC14case(cs *c14case) (rows []string, final string, panicked bool, out []
 			final = "reader-error"
 			return err
 		}
+		// rows are formatted when they are read AND once more when the copy is over: what a handler keeps of the rows
+		// it has read stays what it was, whatever is read afterwards
+		var kept [][]any
+		defer func() {
+			for i, vals := range kept {
+				parts := []any{"row"}
+				for _, v := range vals {
+					parts = append(parts, fmtDecoded(v))
+				}
+				if i < len(rows) && sx(parts...) != rows[i] {
+					final = "retained-row-changed"
+					return
+				}
+			}
+		}()
 		for {
 			vals, err := br.Read(ctx)
 			if err == io.EOF {
@@ -88,6 +103,7 @@ func runC14case(cs *c14case) (rows []string, final string, panicked bool, out []
 				parts = append(parts, fmtDecoded(v))
 			}
 			rows = append(rows, sx(parts...))
+			kept = append(kept, vals)
 		}
 		return w.Complete(fmt.Sprintf("COPY %d", len(rows)))
 	}
@@ -374,6 +390,7 @@ func runC14(c *runCfg) error {
 	if c.replay != "" {
 		return replayC14(c)
 	}
+	runC14volume(c)
 	g := &gen{rng: c.rng}
 	id := 0
 	L := 64
@@ -539,4 +556,60 @@ func runC14(c *runCfg) error {
 		}
 	}
 	return nil
+}
+
+// C10: "every position of the oversized message in a session" — also between the CopyData messages of a binary
+// COPY whose row is split across them (after the field count, inside a field length, inside a value): the copy
+// ends with the one error of class 54000, the connection goes on
+func runC10copyrows(c *runCfg) {
+	oids := []int{23, 25, 20}
+	rows := [][]bval{{{kind: "int", i: 7}, {kind: "bytes", b: []byte("seven")}, {kind: "int", i: 1 << 40}}, {{null: true}, {kind: "bytes", b: []byte{}}, {kind: "int", i: -1}}}
+	for hi, header := range []bool{true, false} {
+		stream, _ := encodeRows(oids, rows, header, true)
+		for _, L := range []int{64, 1024} {
+			for a := 1; a < len(stream); a++ {
+				emitC14(c, &c14case{id: fmt.Sprintf("%do%d.%d", 9500000+hi, a, L), class: "oversize_in_row", limit: L, oids: oids,
+					chunks: fitChunks([][]byte{stream[:a]}, L), after: fitChunks([][]byte{stream[a:]}, L), ending: "over", must: "err"})
+			}
+		}
+	}
+}
+
+// C13: "a CopyFail surfaces as an error, reported once" — also when the binary stream in front of it was complete
+// (end-of-data trailer included): the client may still abort until it has sent CopyDone
+func runC13binary(c *runCfg) {
+	oids := []int{23, 25}
+	rows := [][]bval{{{kind: "int", i: 10}, {kind: "bytes", b: []byte("kilo")}}, {{kind: "int", i: 11}, {null: true}}}
+	k := 0
+	for _, header := range []bool{true, false} {
+		for _, nrows := range []int{0, 1, 2} {
+			stream, _ := encodeRows(oids, rows[:nrows], header, true)
+			for _, chunks := range [][][]byte{{stream}, {stream[:len(stream)-2], stream[len(stream)-2:]}, {stream[:len(stream)/2], stream[len(stream)/2:]}} {
+				for _, noise := range []bool{false, true} {
+					emitC14(c, &c14case{id: fmt.Sprintf("%d", 9600000+k), class: "fail_after_trailer", limit: 1024, oids: oids, chunks: chunks, ending: "fail", must: "err", noise: noise})
+					k++
+				}
+			}
+		}
+	}
+}
+
+// C14 volume: streams of several hundred rows (beyond 8 KiB) in CopyData messages of many sizes; the handler keeps every
+// row it has read until the copy is over
+func runC14volume(c *runCfg) {
+	oids := []int{23, 25, 1043}
+	var rows [][]bval
+	for i := 0; i < 400; i++ {
+		rows = append(rows, []bval{{kind: "int", i: int64(i)}, {kind: "bytes", b: []byte(fmt.Sprintf("name-%04d", i))}, {kind: "bytes", b: []byte(fmt.Sprintf("%04d-second-column", i))}})
+	}
+	stream, expect := encodeRows(oids, rows, true, true)
+	for k, size := range []int{len(stream), 4096, 1000, 333, 4095, 8000} {
+		var chunks [][]byte
+		for rest := stream; len(rest) > 0; {
+			n := min(size, len(rest))
+			chunks = append(chunks, rest[:n])
+			rest = rest[n:]
+		}
+		emitC14(c, &c14case{id: fmt.Sprintf("9800000.v%d", k), class: "retained_rows", limit: 65536, oids: oids, chunks: chunks, ending: "done", expect: expect})
+	}
 }
